@@ -240,6 +240,8 @@ class Server(object):
         self.hold_upload_reply = set()   # phones whose key-upload result is withheld
         self.upload_reply_error = set()  # phones whose next upload gets an error reply
         self.ask_keys_ids = 0
+        self.low_keys = 0                # ask an account for more keys when fewer than this many are left
+        self.asked_low = set()
 
     def now(self):
         self.t += 1
@@ -259,7 +261,7 @@ class Server(object):
 
     def on_connected(self, client):
         self.outbound[client.phone] = []
-        self.inbound[client.phone] = []
+        self.inbound.setdefault(client.phone, [])
         self.outbound[client.phone].append(tup("success", {"t": self.now(), "props": "4", "creation": "1500000000", "location": "frc"}))
         for st in self.offline.pop(client.phone, []):
             if st[0] in ("message", "receipt"):
@@ -273,7 +275,7 @@ class Server(object):
         rest = [s for s in rest if s[0] != "success"]
         if rest:
             self.offline[client.phone] = rest + self.offline.get(client.phone, [])
-        self.inbound.pop(client.phone, None)
+        # what the client wrote before closing has reached the server (graceful TCP close): it stays queued
 
     # -- stanza handling --------------------------------------------------------------------
     def process(self, client, t):
@@ -317,6 +319,7 @@ class Server(object):
         # the server stores the keys when it processes the request, whether or not the reply gets through
         acc.identity, acc.registration, acc.djb_type, acc.skey = up["identity"], up["registration"], up["type"], up["skey"]
         acc.prekeys.extend(up["keys"])
+        self.asked_low.discard(client.jid)
         if client.phone in self.hold_upload_reply:
             up["confirmed"] = False
             return
@@ -337,6 +340,12 @@ class Server(object):
                 acc.consumed.append((kid, val, client.phone))
                 kids.append(tup("key", {}, [tup("id", data=kid), tup("value", data=val)]))
                 self.world.count("srv_prekeys_served")
+                if len(acc.prekeys) < self.low_keys and jid not in self.asked_low:
+                    # like the real server: tell the account that its stock of one-time keys runs low
+                    self.asked_low.add(jid)
+                    self.ask_for_keys(jid.split("@")[0], len(acc.prekeys))
+            else:
+                self.world.count("srv_prekeys_exhausted")
             users.append(tup("user", {"jid": jid}, kids))
         self.to_client(client.phone, tup("iq", {"id": t[1]["id"], "type": "result", "from": S_NET}, [tup("list", {}, users)]))
 
